@@ -153,6 +153,10 @@ let () = register "c08.annraw" (c08_line deployed)
 let () = register "c08.indir" (c08_line deployed)
 (* documents opened with a text that is not the file's text (restored unsaved buffers) *)
 let () = register "c08.opentext" (c08_line deployed)
+(* one watched notification naming the same path several times (non-conformant for the spec: its column is "-"; the check
+   compares every view with the fresh start's itself) *)
+let () = register "c08.samepath" (c08_line deployed)
+let () = register "c08.samepathraw" (c08_line deployed)
 (* the same history against the model with all repairs switched on / with those of round 1 / round 2 / round 3 (= all but
    the didOpen repair) only / with none (not deciding legs; used by hand to validate a repair diff against a patched or an
    old copy of the code) *)
